@@ -40,9 +40,23 @@ type Explorer struct {
 	stop                           atomic.Bool
 }
 
+// work is one unexplored alternative: the choices of the execution it branches from (shared, never
+// modified) up to cut, then alt. The prefix is materialised only when the item is taken.
 type work struct {
-	prefix []int
-	pre    int // preemptions spent in prefix
+	base []int
+	cut  int // -1: the empty prefix
+	alt  int
+	pre  int // preemptions spent in prefix
+}
+
+func (w work) prefix() []int {
+	if w.cut < 0 {
+		return nil
+	}
+	np := make([]int, w.cut+1)
+	copy(np, w.base[:w.cut])
+	np[w.cut] = w.alt
+	return np
 }
 
 func (e *Explorer) exec(prefix []int, prePreempt int) (*Sched, []work) {
@@ -133,6 +147,10 @@ func (e *Explorer) exec(prefix []int, prePreempt int) (*Sched, []work) {
 	// alternatives at points beyond the prefix
 	pre = 0
 	devs := 0
+	base := make([]int, len(s.Points))
+	for i, p := range s.Points {
+		base[i] = p.Chosen
+	}
 	for i, p := range s.Points {
 		isChoice := strings.HasPrefix(p.Label, "choose:")
 		if i >= len(prefix) && (!p.Frozen || isChoice) {
@@ -150,12 +168,7 @@ func (e *Explorer) exec(prefix []int, prePreempt int) (*Sched, []work) {
 				if e.Bound >= 0 && cost > e.Bound {
 					continue
 				}
-				np := make([]int, i+1)
-				for k := 0; k < i; k++ {
-					np[k] = s.Points[k].Chosen
-				}
-				np[i] = alt
-				next = append(next, work{np, cost})
+				next = append(next, work{base, i, alt, cost})
 			}
 		}
 		if p.RunningStill && p.Chosen != 0 {
@@ -185,7 +198,7 @@ func (e *Explorer) Explore() {
 	}
 	var mu sync.Mutex
 	cond := sync.NewCond(&mu)
-	stack := []work{{nil, 0}}
+	stack := []work{{nil, -1, 0, 0}}
 	active := 0
 	var wg sync.WaitGroup
 	for w := 0; w < e.Workers; w++ {
@@ -206,7 +219,7 @@ func (e *Explorer) Explore() {
 				stack = stack[:len(stack)-1]
 				active++
 				mu.Unlock()
-				_, next := e.exec(it.prefix, it.pre)
+				_, next := e.exec(it.prefix(), it.pre)
 				mu.Lock()
 				stack = append(stack, next...)
 				active--
